@@ -44,6 +44,7 @@ fn run_child(harness: &str, cfg: Value) {
         "c20_describe" => Box::new(move || harness::bridge::c20_describe(&cfg)),
         "c17_attach" => Box::new(move || harness::global::c17_attach(&cfg)),
         "c13" => Box::new(move || harness::uow::c13(&cfg)),
+        "c18_owned" => Box::new(move || harness::timers::c18_owned(&cfg)),
         other => {
             eprintln!("unknown harness {other}");
             std::process::exit(2)
